@@ -28,6 +28,30 @@ size_t g_reasm;              /* reassembled packets handed to the result list */
 const uint8_t *g_src;        /* message bytes the most recently constructed Packet was built from */
 uint8_t g0_present; uint16_t g0_seq; uint8_t g0_segtype; uint8_t g0_ver; uint8_t g0_mtype; size_t g0_n;   /* slot at entry */
 
+/* ---- value semantics (C14) ---- */
+size_t g_w;               /* ghost witness: index of a differing byte when an equality returns false */
+#define VAL_PAYLOAD(p)   (__CPROVER_is_fresh((p), sizeof(*(p))) && (p)->payloadData.n <= VEC_MAX && CEX_LIMIT((p)->payloadData.n) && __CPROVER_is_fresh((p)->payloadData.d, CEX_CAP((p)->payloadData.n)))
+#define VAL_PACKET(p)    (__CPROVER_is_fresh((p), sizeof(*(p))) && ((p)->payload == 0 || VAL_PAYLOAD((p)->payload)))
+#ifdef VERIF_ALIAS
+/* aliased harnesses: both sides / target and source are the SAME object (no separation assumed) */
+#define EQ_RHS(l, r)         ((r) == (l))
+#define EQ_RHS_PACKET(l, r)  ((r) == (l))
+#define ASSIGN_THIS(t)       __CPROVER_rw_ok((t), sizeof(*(t)))        /* the harness allocates the object and passes it on both sides */
+#define ASSIGN_RHS(t, o)     ((const void *)(o) == (const void *)(t))
+#else
+#define EQ_RHS(l, r)         VAL_PAYLOAD(r)
+#define EQ_RHS_PACKET(l, r)  VAL_PACKET(r)
+#define ASSIGN_THIS(t)       __CPROVER_is_fresh((t), sizeof(*(t)))
+#define ASSIGN_RHS(t, o)     VAL_PACKET(o)
+#endif
+#define KLEN(p)          ((p)->payload ? (size_t)(uint16_t)(p)->payload->payloadData.n : (size_t)0)       /* payload length a Packet reports */
+#define PKT_SCALARS_EQ(a, b) ((a)->version == (b)->version && (a)->deviceId == (b)->deviceId && (a)->streamId == (b)->streamId && (a)->sequenceCounter == (b)->sequenceCounter && \
+                              (a)->timestamp == (b)->timestamp && (a)->interfaceId == (b)->interfaceId && (a)->vendorId == (b)->vendorId && (a)->commonFlags == (b)->commonFlags && (a)->segmentType == (b)->segmentType)
+#define PKT_SCALARS_EQ_V(v, b) ((v).version == (b)->version && (v).deviceId == (b)->deviceId && (v).streamId == (b)->streamId && (v).sequenceCounter == (b)->sequenceCounter && \
+                              (v).timestamp == (b)->timestamp && (v).interfaceId == (b)->interfaceId && (v).vendorId == (b)->vendorId && (v).commonFlags == (b)->commonFlags && (v).segmentType == (b)->segmentType)
+#define PKT_SCALARS_EQ_OLD(a, b) ((a)->version == __CPROVER_old((b)->version) && (a)->deviceId == __CPROVER_old((b)->deviceId) && (a)->streamId == __CPROVER_old((b)->streamId) && (a)->sequenceCounter == __CPROVER_old((b)->sequenceCounter) && \
+                              (a)->timestamp == __CPROVER_old((b)->timestamp) && (a)->interfaceId == __CPROVER_old((b)->interfaceId) && (a)->vendorId == __CPROVER_old((b)->vendorId) && (a)->commonFlags == __CPROVER_old((b)->commonFlags) && (a)->segmentType == __CPROVER_old((b)->segmentType))
+
 /* ---- encoder monitor M_E (C01 C07 C08 C09 C10 C20) ---- */
 size_t  g_pkt_pos;        /* payload bytes of the current packet already emitted */
 size_t  g_frame_msgs;     /* messages in the current frame */
